@@ -146,6 +146,10 @@ def _tn():
     # free-standing dashes (a spaced dash, a flattened bullet list, a range): a wrapped line may end in one
     t["prose"] = dict(t["prose"], p1="name of dataset - one of - mnist - cifar", p3="number of samples per batch - in the range 1 - 500",
                       ret="train and tests dataset splits - as a pair")
+    # values that compare equal across types (1 == 1.0 == True, 0 == 0.0 == False) live side by side in this table
+    t["def"] = dict(t["def"], intPos=1, float=1.0)
+    t["litint"] = (1, 0)
+    t["typ"]["LitInt"] = "Literal[1, 0]"
     t["prose_opt"] = {"p1": "Optional name prefix for the dataset", "p2": "(Optional) directory to look for models in",
                       "p3": "Optional number of samples per batch"}
     return t
